@@ -9,11 +9,11 @@ import props  # noqa: E402
 import vk  # noqa: E402
 
 ENGINES = {
-    "plugins": ("spec/plugins + harness/cmd/vh (c15,c16,c17,c18,c20)", "TLA+ monitors for the plugin family, TLC exhaustive + trace validation of real executions"),
-    "push": ("spec/push + harness/cmd/vh (c19)", "TLA+ Push/PushMonitor, TLC exhaustive + gate replay + trace validation"),
-    "mux": ("spec/mux + harness/cmd/vh (c09,c10)", "TLA+ Mux/MuxMonitor, TLC exhaustive + gate replay + trace validation"),
+    "plugins": ("spec/plugins + harness/cmd/vh (c15,c16,c17,c18,c20)", "TLA+ monitors and implementation-shaped models of the plugin family (PluginChain, Cluster, ClusterIndex, Limiter, LoadBalance, CircuitBreaker, ...): TLC exhaustive, Apalache inductive invariants for the small concurrent models, TLC trace validation of real executions"),
+    "push": ("spec/push + harness/cmd/vh (c19)", "TLA+ Push (hand-over, heart beat), Prosumer (client poll loops), PushMonitor: TLC exhaustive incl. liveness + gate replay of counterexample schedules + trace validation"),
+    "mux": ("spec/mux + harness/cmd/vh (c09,c10)", "TLA+ Mux (connection multiplexing), Reverse (reverse calls), MuxMonitor: TLC exhaustive incl. liveness + gate replay of counterexample schedules + trace validation"),
     "format": ("spec/format + harness/cmd/vh (c01..c07)", "TLA+ HproseFormat recogniser/contracts, TLC trace validation of encoder/decoder behaviour"),
-    "calls": ("spec/calls + harness/cmd/vh (c08,c11,c12,c13)", "TLA+ RpcCall/Framing/MaxLen/Containment, TLC enumeration + trace validation"),
+    "calls": ("spec/calls + harness/cmd/vh (c08,c11,c12,c13)", "TLA+ RpcCall, Framing (frame layers against lying senders), MaxLen / Containment monitors: TLC exhaustive + replay of the model's message space into the real transports + trace validation"),
     "coders": ("spec/coders + harness/cmd/vh (c14)", "TLA+ LazyRegistry/CoderPool, TLC exhaustive + gate replay"),
 }
 
